@@ -147,7 +147,14 @@ func attemptAll(s *Sess, g *Gen, rows []LockRow, source string, fullSnap bool) b
 			core, _ = hookShape(s.W)
 		}
 		regBefore := len(ecs.ComponentIDs(s.W))
+		// on a locked world the rejection comes before anything else: even what World.Stats reports about nodes,
+		// tables, capacities and memory must be what it was
+		statsBefore := s.W.Stats().String()
 		if !InjectFault(s, fr, op) {
+			return false
+		}
+		if st := s.W.Stats().String(); st != statsBefore {
+			s.fail("illegal.changed.stats:locked."+row.Name, "rejected call on a locked world changed what World.Stats reports: %s", firstDiff(statsBefore, st))
 			return false
 		}
 		if !fullSnap && HooksOn {
